@@ -21,3 +21,13 @@ CLAIMED['C01'] = (
     NOTE_COMMON + 'Projection lemmas for evaluate/evaluate_at/get_truth_table and termination of the explicit-stack loop are '
     'validated by correspondence, not proved.',
     'Lean 4 proof (fold/rank induction, Kahn invariant) + regenerated tables + differential correspondence')
+CLAIMED['C20'] = (
+    'DESIGN.md 5/C20',
+    'Theorems: the order-faithful Kahn model (LIFO work list, multiset successor lists) yields, on every well-formed circuit and in '
+    'both directions, a permutation of the gates with every gate after (resp. before) all of its operands and never raises; the '
+    'single-work-list DFS/BFS model yields exactly the gates reachable from any start list in either direction, each once, and hands '
+    'exactly the unreached gates to the unvisited hook (storage or topological order). Event logs of the real traversals (all hooks) '
+    'and the cycle check are compared with the model on DAGs and deliberately cyclic netlists on every run.',
+    NOTE_COMMON + 'DFS enter/exit ordering, post-order and cycle-check exactness are modelled and correspondence-checked; their theorems '
+    'are not proved yet (listed as partial in the evidence). Traversal theorems are partial-correctness (fuel).',
+    'Lean 4 proof (loop invariants for Kahn and the work-list traversal) + differential correspondence of event logs')
